@@ -16,4 +16,35 @@ CHECKS = {
             {"harness": "c10_bq", "flavour": "asan", "runs": {"quick": 4000, "thorough": 200000}, "wall": {"quick": 45, "thorough": 900}},
         ],
     },
+    "C09": {
+        "level": "exploration",
+        "rule": ("each run = one seeded plan (pool sizes initial 0-3/max 1-8, idle timeout 1-200 ms, queue 1-16, 1-5 submitters using enqueue/tryEnqueue/"
+                 "enqueueWithResult with sleeping, throwing and nested-submitting tasks, idle gaps beyond the idle timeout, termination by destructor/stop/"
+                 "drain+stop/shutdown racing the submitters) under one seeded schedule with stalls up to 20 ms; non-trivial = at least one context switch; "
+                 "distinct = distinct (interleaving hash, abstract state hash)"),
+        "real": ["iora::core::ThreadPool (unmodified header)", "libstdc++ thread/mutex/condition_variable/future"],
+        "stub": COMMON_STUB,
+        "assumptions": ["members are not called concurrently with the destructor (submitters are joined first); stop/drain/shutdown do race submitters",
+                        "scheduling points only at intercepted synchronisation calls"],
+        "jobs": [
+            {"harness": "c09_tp", "flavour": "asan", "runs": {"quick": 50000, "thorough": 2000000}, "wall": {"quick": 50, "thorough": 1500}},
+        ],
+    },
+    "C08": {
+        "level": "exploration",
+        "rule": ("each run = one seeded plan (1-4 actor threads: schedule with delays of zero/sub-tick/bucket- and level-boundary/far-future, periodic, cancel, "
+                 "reschedule, sleeps; handlers that sleep or cancel other timers; termination by stop/drain after a fault-free quiet tail or racing the actors) "
+                 "for TimerService, a pool of 2-3 services, or TimingWheel (tick 1-50 ms, 4-16 slots, 2-3 levels), under one seeded schedule with stalls of "
+                 "several ticks; all times are simulated, so deadline oracles are exact; non-trivial = at least one context switch; distinct = distinct "
+                 "(mode, interleaving hash, abstract state hash)"),
+        "real": ["iora::core::TimerService, SteadyTimer-less direct API, TimerServicePool-equivalent set of services, iora::core::TimingWheel (unmodified headers)",
+                 "TimerService's epoll/timerfd/eventfd loop runs against the simulated kernel"],
+        "stub": COMMON_STUB + ["epoll/timerfd/eventfd (simulated kernel)"],
+        "assumptions": ["TimingWheel::advance() is not called manually while the tick thread runs", "one terminating thread (stop/drain are not raced with each other)"],
+        "jobs": [
+            {"harness": "c08_timers", "mode": "svc", "flavour": "asan", "runs": {"quick": 12000, "thorough": 600000}, "wall": {"quick": 25, "thorough": 600}, "seed_off": 1},
+            {"harness": "c08_timers", "mode": "pool", "flavour": "asan", "runs": {"quick": 6000, "thorough": 300000}, "wall": {"quick": 15, "thorough": 400}, "seed_off": 2},
+            {"harness": "c08_timers", "mode": "wheel", "flavour": "asan", "runs": {"quick": 15000, "thorough": 800000}, "wall": {"quick": 25, "thorough": 600}, "seed_off": 3},
+        ],
+    },
 }
